@@ -582,6 +582,7 @@ fn write_evidence(
     wall_s: f64,
     violations: u64,
     known: &KnownFindings,
+    other_configurations: &[serde_json::Value],
 ) -> Result<(), String> {
     let mut total = st.probes.clone();
     total.merge(&st.probes_fault_free);
@@ -616,6 +617,10 @@ fn write_evidence(
                 "seam_events": st.steps
             },
             "runs_per_hour": runs_per_hour,
+            "build_configurations": {
+                "primary": "twofloat with default features (std, math_funcs) + serde: everything reported in this file outside this key",
+                "secondary": other_configurations
+            },
             "seeds": seeds_used,
             "runs_per_seed": runs_per_seed,
             "workers": workers,
@@ -694,6 +699,12 @@ struct Args {
     /// where evidence/ and replays/ are written (default: verif_dir)
     out_dir: Option<PathBuf>,
     no_respawn: bool,
+    /// label of the build configuration this binary was compiled in (e.g. "no_std")
+    config_label: Option<String>,
+    /// write a short JSON summary here instead of the evidence file (secondary configurations)
+    summary_only: Option<PathBuf>,
+    /// summaries of secondary configurations to embed in the evidence
+    merge_summaries: Vec<PathBuf>,
 }
 
 fn parse_args() -> Result<Args, String> {
@@ -713,6 +724,9 @@ fn parse_args() -> Result<Args, String> {
         verif_dir: PathBuf::from(std::env::var("VERIF_DIR").unwrap_or_else(|_| "/verif".into())),
         out_dir: std::env::var("VERIF_OUT_DIR").ok().filter(|s| !s.is_empty()).map(PathBuf::from),
         no_respawn: false,
+        config_label: None,
+        summary_only: None,
+        merge_summaries: Vec::new(),
     };
     let mut it = std::env::args().skip(1);
     while let Some(x) = it.next() {
@@ -731,6 +745,9 @@ fn parse_args() -> Result<Args, String> {
             "selftest" | "--selftest" => a.selftest = true,
             "--digest-only" => a.digest_only = true,
             "--no-respawn" => a.no_respawn = true,
+            "--config-label" => a.config_label = Some(val("--config-label")?),
+            "--summary-only" => a.summary_only = Some(PathBuf::from(val("--summary-only")?)),
+            "--merge-summary" => a.merge_summaries.push(PathBuf::from(val("--merge-summary")?)),
             "C20" => {}
             other => return Err(format!("unknown argument {other}")),
         }
@@ -963,7 +980,8 @@ fn main() {
                     delivered_bytes: bytes,
                     original_case: case.clone(),
                 };
-                let path = replay_dir.join(format!("{PROPERTY}-{base}-{idx}-{}-{}.json", LEG_NAMES[leg], v.class));
+                let label = a.config_label.as_deref().map(|l| format!("-{l}")).unwrap_or_default();
+                let path = replay_dir.join(format!("{PROPERTY}{label}-{base}-{idx}-{}-{}.json", LEG_NAMES[leg], v.class));
                 if let Err(e) = std::fs::write(&path, serde_json::to_string_pretty(&rf).unwrap() + "\n") {
                     eprintln!("HARNESS ERROR: cannot write replay file: {e}");
                     std::process::exit(2);
@@ -995,10 +1013,41 @@ fn main() {
             }
         }
     }
-    let ev_path = out_dir.join("evidence").join(format!("{PROPERTY}.json"));
-    if let Err(e) = write_evidence(&ev_path, &a.tier, a.seed, &seeds, runs, a.workers, &total, wall, nviol, &known) {
-        eprintln!("HARNESS ERROR: cannot write evidence: {e}");
-        std::process::exit(2);
+    if let Some(sp) = &a.summary_only {
+        let mut tp = total.probes.clone();
+        tp.merge(&total.probes_fault_free);
+        let summary = serde_json::json!({
+            "configuration": a.config_label.clone().unwrap_or_else(|| "secondary".into()),
+            "simulated_runs": total.runs,
+            "legs_executed": total.legs,
+            "legs_under_planned_faults": total.legs_faulted,
+            "distinct_faulted_seam_traces": total.sigs_faulted.len(),
+            "fault_kinds_fired": total.faults_fired.0.len(),
+            "violations": nviol,
+            "exit": exit,
+            "wall_s": wall,
+            "batch_digest": format!("{:016x}", total.digest),
+        });
+        if let Err(e) = std::fs::write(sp, serde_json::to_string_pretty(&summary).unwrap() + "\n") {
+            eprintln!("HARNESS ERROR: cannot write summary: {e}");
+            std::process::exit(2);
+        }
+    } else {
+        let mut extra = Vec::new();
+        for p in &a.merge_summaries {
+            match std::fs::read_to_string(p).ok().and_then(|t| serde_json::from_str::<serde_json::Value>(&t).ok()) {
+                Some(v) => extra.push(v),
+                None => {
+                    eprintln!("HARNESS ERROR: cannot read configuration summary {}", p.display());
+                    std::process::exit(2);
+                }
+            }
+        }
+        let ev_path = out_dir.join("evidence").join(format!("{PROPERTY}.json"));
+        if let Err(e) = write_evidence(&ev_path, &a.tier, a.seed, &seeds, runs, a.workers, &total, wall, nviol, &known, &extra) {
+            eprintln!("HARNESS ERROR: cannot write evidence: {e}");
+            std::process::exit(2);
+        }
     }
     let mut tp = total.probes.clone();
     tp.merge(&total.probes_fault_free);
@@ -1020,7 +1069,10 @@ fn main() {
         println!("note: required probes at zero: {:?}; fault kinds at zero: {:?}", zp, zf);
     }
     if exit == 0 {
-        println!("OK property={PROPERTY} held on everything explored");
+        println!(
+            "OK property={PROPERTY} held on everything explored{}",
+            a.config_label.as_deref().map(|l| format!(" (configuration: {l})")).unwrap_or_default()
+        );
     }
     std::process::exit(exit);
 }
